@@ -164,6 +164,15 @@ class C04(Property):
                     continue
                 for fkey, detail in oracle(run_spec, r, failing):
                     ctx.fail(fkey, detail, {"spec": run_spec, "failing": failing, "seed": r["seed"], "shuffle": r["shuffle"]})
+            # K for the reading protocol of LoopCombinatorStep: the real streams of its input ports go through the model
+            for r in runs:
+                if r["outcome"]["kind"] == "harness-error":
+                    continue
+                for lname, lc in r.get("loop_combinators", {}).items():
+                    streams = [",".join(v["stream"]) or "-" for v in lc["inputs"].values()]
+                    lines.append("loopcomb 0 " + " ".join(streams))
+                    metas.append(("loopcomb", run_spec, failing, [dict(r, _lc=(lname, lc))]))
+                    ctx.count("loop-combinator-runs")
             words = wfcheck.spec_words(run_spec)
             lines.append(f"exec {words}" + (f" fail={fail_node}" if failing else ""))
             metas.append(("outcome", run_spec, failing, runs))
@@ -173,7 +182,18 @@ class C04(Property):
         got = ctx.lean("Drivers/Net.lean", lines)
         for g, (what, spec, failing, runs) in zip(got, metas):
             for r in runs:
-                if r["outcome"]["kind"] in ("hang", "harness-error"):
+                if r["outcome"]["kind"] == "harness-error" or (r["outcome"]["kind"] == "hang" and what != "loopcomb"):
+                    continue
+                if what == "loopcomb":
+                    lname, lc = r["_lc"]
+                    real = f"done={1 if lc['terminated'] else 0};unread={sum(v['unread'] for v in lc['inputs'].values())}"
+                    model = ";".join(x for x in g.split(";") if not x.startswith("deadlocked"))
+                    # a step cancelled by close() is terminated without having left its loop by itself
+                    cancelled = r.get("steps", {}).get(lname, {}).get("status") == "CANCELLED"
+                    if real != model and not cancelled and r["outcome"]["kind"] != "raise":
+                        ctx.disagree("LoopCombinatorStep reading protocol: model vs real",
+                                     f"{lname}: real {real}, model {g}, streams {[v['stream'] for v in lc['inputs'].values()]}",
+                                     {"spec": spec, "failing": failing, "seed": r["seed"], "shuffle": r["shuffle"]})
                     continue
                 if what == "outcome":
                     if g != r["outcome"]["kind"]:
